@@ -39,6 +39,10 @@ pub open spec fn class_specific(id_class: bool) -> DerivedPropertyValue {
 }
 
 pub open spec fn rfc8264_derived(cp: u32, id_class: bool) -> DerivedPropertyValue {
+    rfc8264_derived_with(cp, class_specific(id_class))
+}
+
+pub open spec fn rfc8264_derived_with(cp: u32, class_value: DerivedPropertyValue) -> DerivedPropertyValue {
     if t_exception(cp) is Some { t_exception(cp)->Some_0 }
     else if t_backward_compatible(cp) is Some { t_backward_compatible(cp)->Some_0 }
     else if t_unassigned(cp) { DerivedPropertyValue::Unassigned }
@@ -47,12 +51,12 @@ pub open spec fn rfc8264_derived(cp: u32, id_class: bool) -> DerivedPropertyValu
     else if t_old_hangul_jamo(cp) { DerivedPropertyValue::Disallowed }
     else if t_precis_ignorable(cp) { DerivedPropertyValue::Disallowed }
     else if t_control(cp) { DerivedPropertyValue::Disallowed }
-    else if t_has_compat(cp) { class_specific(id_class) }
+    else if t_has_compat(cp) { class_value }
     else if t_letter_digit(cp) { DerivedPropertyValue::PValid }
-    else if t_other_letter_digit(cp) { class_specific(id_class) }
-    else if t_space(cp) { class_specific(id_class) }
-    else if t_symbol(cp) { class_specific(id_class) }
-    else if t_punctuation(cp) { class_specific(id_class) }
+    else if t_other_letter_digit(cp) { class_value }
+    else if t_space(cp) { class_value }
+    else if t_symbol(cp) { class_value }
+    else if t_punctuation(cp) { class_value }
     else { DerivedPropertyValue::Disallowed }
 }
 
